@@ -151,15 +151,17 @@ func (o *failOptions) run() error {
 
 	newCanaryERS := canaryERS.DeepCopy()
 
-	newCanaryERS.Status.Conditions = append(
-		newCanaryERS.Status.Conditions,
-		conditions.NewExtendedDaemonSetReplicaSetCondition(
-			v1alpha1.ConditionTypeCanaryFailed,
-			conditions.BoolToCondition(true),
-			metav1.Now(),
-			"Manually failed",
-			"",
-			true),
+	// Update the condition if the ReplicaSet already carries one (e.g. set back to False when it was active),
+	// append it otherwise: readers only look at the first condition of a type
+	conditions.UpdateExtendedDaemonSetReplicaSetStatusCondition(
+		&newCanaryERS.Status,
+		metav1.Now(),
+		v1alpha1.ConditionTypeCanaryFailed,
+		conditions.BoolToCondition(true),
+		"Manually failed",
+		"",
+		false,
+		true,
 	)
 	if err = o.client.Status().Update(context.TODO(), newCanaryERS); err != nil {
 		return fmt.Errorf("unable to update ERS status, err: %w", err)
